@@ -415,7 +415,7 @@ def housekeeping_race(ctx, rng):
                 p = P.Proxy(lab.daemon.uriFor("target"))
                 it = p.gen(5)
                 next(it)
-                it.proxy = None
+                util.detach_iterator(it)
                 sc.sleep(2.0)                 # the stream is past its lifetime now; nobody has removed it yet
                 done = [0]
 
